@@ -963,6 +963,7 @@ def run_modee(ctx):
     jobs = [("library", n) for n in libs] + [("migrated", f) for f in E.MIGRATION_FILES]
     jobs += [("generated", ctx.seed * 100003 + i) for i in range(ctx.n(60, 800))]
     jobs += [("genfw", ctx.seed * 100019 + i) for i in range(ctx.n(12, 200))]
+    jobs += [("substring", n) for n in (["udt"] if ctx.quick else ["udt", "hypertension"])]
     jobs += [("versions", n) for n in (["udt", "tb_simple"] if ctx.quick else ["udt", "tb_simple", "hypertension", "combined"])]
     run_pool(ctx, sorted(jobs, key=lambda j: j[0] != "library" or j[1] != "tb"), "library+generated")
     # operation sequences: phase 1 (length <= 2, every failure shrunk), phase 2 (longer; known minimal failures are not shrunk again)
